@@ -230,7 +230,7 @@ def replay(path):
     env.assert_persim_from_repo()
     mod = importlib.import_module("checks." + prop.lower())
     ctx = Ctx(prop, v.get("tier", "quick"), replay=True)
-    ctx.call_variants = bool(getattr(mod, "CALL_VARIANTS", False))
+    ctx.call_variants = int(getattr(mod, "CALL_VARIANTS", 0))
     case = unjson(v["case"])
     if hasattr(mod, "decode_case"):
         case = mod.decode_case(case)
